@@ -143,6 +143,17 @@ func (g *Gen) twoLevelPrelude() []Step {
 		}
 		st = append(st, Step{Cmd: &c})
 	}
+	// some tasks are finished before the edges are drawn and reopened after:
+	// a relation that is harmless while a task is done can deadlock once the
+	// task is back in todo
+	var finishedRefs []string
+	for i := 0; i < nt; i++ {
+		if g.R.Chance(1, 3) {
+			ref := fmt.Sprintf("#%d", ne+i)
+			finishedRefs = append(finishedRefs, ref)
+			st = append(st, Step{Cmd: &Cmd{Op: "set", ID: ref, State: sp(g.oneOf("done", "canceled", "done"))}})
+		}
+	}
 	nl := 2 + g.R.Intn(5)
 	for i := 0; i < nl; i++ {
 		if g.R.Chance(1, 3) {
@@ -155,6 +166,11 @@ func (g *Gen) twoLevelPrelude() []Step {
 		if g.R.Chance(1, 4) {
 			e := fmt.Sprintf("#%d", g.R.Intn(ne))
 			st = append(st, Step{Cmd: &Cmd{Op: "set", ID: fmt.Sprintf("#%d", ne+g.R.Intn(nt)), Epic: &e}})
+		}
+	}
+	for _, ref := range finishedRefs {
+		if g.R.Chance(2, 3) {
+			st = append(st, Step{Cmd: &Cmd{Op: "set", ID: ref, State: sp("todo")}})
 		}
 	}
 	return st
